@@ -25,12 +25,17 @@ GwsIn(m0, e) ==
   IN
   IF m0.hs # "reading" \/ m0.conn = "closed" THEN Reject(m0, "Harness", "input-while-not-reading", m0.hs)
   ELSE
-  CASE sym = "init" ->
+  CASE sym \in {"init", "initslow"} ->
          IF m.conn = "opened" THEN [m EXCEPT !.pend = "ack"]
          ELSE [m EXCEPT !.popt = m.popt \cup {Opt("ack", ""), Opt("connerr", "")}]
     [] sym \in {"ping", "pong", "unknown", "malformed", "binary"} -> [m EXCEPT !.popt = m.popt \cup err]
     \* a refused init: connection_error, never an ack (and so no keep-alive); the server terminates what is running
     \* on the connection - those operations end without a terminal message, nothing is owed for them any more
+    \* connection_terminate: the client is done with the connection. The server ends what is running (no terminal
+    \* messages are owed any more) and may close the socket (normal closure or plain TCP close); the code keeps it open.
+    [] sym = "terminate" ->
+         [m EXCEPT !.popt = m.popt \cup {Opt("close1000", ""), Opt("close0", "")},
+                   !.op = [i \in OpIds |-> IF m.op[i].st = "active" THEN [m.op[i] EXCEPT !.stop = TRUE] ELSE m.op[i]]]
     [] sym = "initrej" ->
          [m EXCEPT !.popt = m.popt \cup {Opt("connerr", "")},
                    !.op = [i \in OpIds |-> IF m.op[i].st = "active" THEN [m.op[i] EXCEPT !.stop = TRUE] ELSE m.op[i]]]
@@ -54,6 +59,7 @@ GwsOut(m, e) ==
          IF m.pend = "ack" THEN [m EXCEPT !.pend = "none"]            \* the init was refused
          ELSE IF Opt("connerr", "") \in m.popt THEN m
          ELSE Reject(m, "OutputAllowed", "unsolicited-connection-error", e.a)
+    [] e.a = "wsctl"    -> m
     [] e.a = "ka"       -> IF m.conn = "acked" THEN m ELSE Reject(m, "OutputAllowed", "keep-alive-before-ack", e.a)
     [] e.a = "data"     -> OutData(m, e)
     [] e.a = "error"    -> OutError(m, e)
@@ -66,7 +72,8 @@ GwsStep(m, e) ==
   ELSE
   CASE e.ev = "in"      -> GwsIn(m, e)
     [] e.ev = "out"     -> GwsOut(m, e)
-    [] e.ev = "close"   -> IF e.code = 0 /\ GaveUp(m) /\ m.conn # "closed" THEN Close(m, e)
+    [] e.ev = "close"   -> IF m.conn # "closed" /\ ((e.code = 0 /\ GaveUp(m)) \/ Opt("close" \o ToString(e.code), "") \in m.popt)
+                           THEN Close(m, e)
                            ELSE Reject(m, "CloseCode", "close-not-allowed", ToString(e.code))
     [] e.ev = "rd"      -> Rd(m)
     [] e.ev = "exit"    -> Exit(m)
@@ -78,6 +85,7 @@ GwsStep(m, e) ==
     [] e.ev = "panic"   -> Reject(m, "NoPanic", "panic", e.a)
     [] e.ev = "done"    -> m
     [] e.ev = "broken"  -> [m EXCEPT !.broken = TRUE]
+    [] e.ev \in {"initgo", "tick"} -> m
     [] e.ev = "hold"    -> [m EXCEPT !.wif = TRUE]
     [] e.ev = "unhold"  -> [m EXCEPT !.wif = FALSE]
     [] OTHER            -> Reject(m, "Harness", "unknown-event", e.ev)
